@@ -30,7 +30,7 @@ TRUSTED_BASE = [
     "harness/p9/c01_codec_test.go (reflection fill/dump of message structs)",
 ]
 
-SHARD = 200
+SHARD = 150
 CHUNK = 24
 
 
@@ -270,8 +270,9 @@ def evaluate(ctx, obs, schema, base="C01_cases"):
     if sname is None:
         return [], [], have_gen
     texts = []
-    for i in range(0, len(obs), SHARD):
-        cases = ";\n  ".join("(%s)" % to_case(o) for o in obs[i:i + SHARD])
+    nsh = max(1, (len(obs) + SHARD - 1) // SHARD)   # shard s holds obs[s::nsh]: heavy cases (long strings) come in runs, interleaving spreads them
+    for i in range(nsh):
+        cases = ";\n  ".join("(%s)" % to_case(o) for o in obs[i::nsh])
         t = HEADER % (" Codec.GenTables" if have_gen else "", sname)
         t += "Definition ccases : list ccase := [\n  %s\n].\n" % cases
         # one evaluation: the conversion of the compact cases is shared by the three lists
@@ -279,7 +280,7 @@ def evaluate(ctx, obs, schema, base="C01_cases"):
               "  (bad_cases cases, property_failures cases, %s).\nPrint R.\n" % ("mismatches cases" if have_gen else "@nil nat"))
         texts.append(t)
     prints = ["R"]
-    with ThreadPoolExecutor(max_workers=10) as ex:
+    with ThreadPoolExecutor(max_workers=12) as ex:
         futs = [ex.submit(coq_batch, ctx, "%s_%03d" % (base, i), t, prints) for i, t in enumerate(texts)]
         results = [f.result() for f in futs]
     cleanup_schema(sname)
@@ -292,10 +293,12 @@ def evaluate(ctx, obs, schema, base="C01_cases"):
             continue
         bad = vlib.coq_nat_list(r["B"])
         if bad:
-            ctx.harness_broken("%d observations do not fit the schema of field paths (first: case %d)" % (len(bad), si * SHARD + bad[0]), "")
-        pf += [si * SHARD + i for i in vlib.coq_nat_list(r["P"]) if i not in bad]
+            ctx.harness_broken("%d observations do not fit the schema of field paths (first: case %d)" % (len(bad), si + nsh * bad[0]), "")
+        pf += [si + nsh * i for i in vlib.coq_nat_list(r["P"]) if i not in bad]
         if have_gen:
-            mm += [si * SHARD + i for i in vlib.coq_nat_list(r["M"]) if i not in bad]
+            mm += [si + nsh * i for i in vlib.coq_nat_list(r["M"]) if i not in bad]
+    pf.sort()
+    mm.sort()
     return pf, mm, have_gen
 
 
